@@ -203,6 +203,13 @@ Section WithEnv.
     end.
 
   (* ---------- BlockDecoder ---------- *)
+  Definition RAPTORQ_KMAX : N := 56403.    (* K'_max of RFC 6330, fec/raptorq.rs *)
+  Definition RAPTOR_KMAX : N := 8192.      (* K_max of RFC 5053, fec/raptor.rs *)
+  (* fec/raptor.rs (fixes/D10): size of the largest source symbol of a Raptor block; shorter symbols
+     are handed to the decoder padded with zeros up to it *)
+  Definition raptor_symbol_size (size k : N) : N := div_ceil size (N.max k 1).
+  Definition pad_to (t : N) (payload : list N) : list N :=
+    payload ++ repeat 0 (N.to_nat (t - lenN_ payload)).
   (* BlockDecoder::init: Some = Ok, None = Err *)
   Definition bd_init_block (oti : roti) (k size : N) (b : bdec) : option bdec :=
     if bd_init b then Some b
@@ -210,10 +217,21 @@ Section WithEnv.
       match ro_fec oti with
       | FNoCode => Some (mk_bdec (bd_completed b) true size k [] None true)
       | FRS28 | FRS28US => if rs_ok k (ro_parity oti) then Some (mk_bdec (bd_completed b) true size k [] None true) else None
-      | FRS2M => Some (mk_bdec (bd_completed b) true size k [] None false)   (* "Not implemented": no decoder *)
-      | FRaptorQ | FRaptor =>
+      | FRS2M => None          (* fixes/D33: "decoder is not implemented" is an error, the block gets no decoder *)
+      | FRaptorQ =>
+        (* fixes/D28: RaptorQDecoder::new refuses parameters outside the raptorq crate's range *)
         match ro_scheme oti with
-        | Some _ => Some (mk_bdec (bd_completed b) true size k [] None true)
+        | Some (_, n, al) =>
+          if (ro_e oti =? 0) || (al =? 0) || negb (ro_e oti mod al =? 0) || (n =? 0) || (k =? 0) || (RAPTORQ_KMAX <? k)
+          then None
+          else Some (mk_bdec (bd_completed b) true size k [] None true)
+        | None => None
+        end
+      | FRaptor =>
+        (* fixes/D34: RaptorDecoder::new refuses a block outside the raptor_code crate's range *)
+        match ro_scheme oti with
+        | Some _ => if (k =? 0) || (RAPTOR_KMAX <? k) then None
+                    else Some (mk_bdec (bd_completed b) true size k [] None true)
         | None => None
         end
       end.
@@ -228,7 +246,13 @@ Section WithEnv.
         match ro_fec oti with
         | FNoCode => esi <? k
         | FRS28 | FRS28US => esi <? k + ro_parity oti
+        | FRaptorQ => lenN_ payload =? ro_e oti      (* fixes/D10: any other size is discarded *)
         | _ => true
+        end in
+      let payload :=
+        match ro_fec oti with
+        | FRaptor => pad_to (raptor_symbol_size (bd_size b) k) payload   (* fixes/D10 *)
+        | _ => payload
         end in
       let already_done := match ro_fec oti, bd_data b with
                           | (FRS28 | FRS28US | FRaptorQ | FRaptor), Some _ => true
@@ -489,8 +513,15 @@ Section WithEnv.
       end
     end.
 
+  (* nothing is replayed before the OTI is known; an empty object has no block to wait for (D40) *)
+  Definition cache_replay_blocked (o : objrecv) : bool :=
+    match r_oti o with
+    | None => true
+    | Some _ => (nb_block o =? 0) && negb (match r_tlen o with Some 0 => true | _ => false end)
+    end.
+
   Definition push_from_cache (o : objrecv) (c : ctx) : objrecv * ctx :=
-    if nb_block o =? 0 then (o, c)
+    if cache_replay_blocked o then (o, c)
     else
       let (o1, c1) := drain_cache (rev (r_cache o)) o c in
       (mk_or (r_state o1) (r_toi o1) (r_oti o1) (r_cache o1) 0 (r_max o1) (r_blocks o1) (r_off o1)
